@@ -152,7 +152,7 @@ impl Check for LpCustody {
     fn strategy(&self, tier: Tier) -> BoxedStrategy<Case> {
         let max_ops = tier.pick(40usize, 120usize);
         (
-            prop_oneof![Just(LpKind::Cw20), Just(LpKind::Native), Just(LpKind::PairLp)],
+            prop_oneof![Just(LpKind::Cw20), Just(LpKind::Native), Just(LpKind::PairLp), Just(LpKind::PairLpCw20)],
             prop::collection::vec(op(), 2..max_ops),
         )
             .prop_map(|(lp, ops)| Case { lp, ops })
@@ -305,8 +305,29 @@ impl Check for LpCustody {
                     let b0 = iw.w.bal(&iw.lp, &iw.incentive);
                     let mut funds = vec![];
                     for (i, amt) in [a0.u128(), a1.u128()].iter().enumerate() {
-                        if let AssetInfo::NativeToken { denom } = &pa[i] {
-                            funds.push(coin(*amt, denom));
+                        match &pa[i] {
+                            AssetInfo::NativeToken { denom } => funds.push(coin(*amt, denom)),
+                            AssetInfo::Token { contract_addr } => {
+                                // the helper demands an allowance of exactly the amount; one deposit in
+                                // eight approves one unit more or less instead
+                                let t = cosmwasm_std::Addr::unchecked(contract_addr);
+                                let want = match amt % 8 {
+                                    0 => amt.saturating_sub(1),
+                                    1 => amt + 1,
+                                    _ => *amt,
+                                };
+                                let cur: cw20::AllowanceResponse = iw
+                                    .w
+                                    .query(&t, &cw20::Cw20QueryMsg::Allowance { owner: who.to_string(), spender: helper.to_string() })
+                                    .unwrap_or(cw20::AllowanceResponse { allowance: Uint128::zero(), expires: cw20::Expiration::Never {} });
+                                if !cur.allowance.is_zero() {
+                                    let _ = iw.w.exec(&who, &t, &cw20::Cw20ExecuteMsg::DecreaseAllowance { spender: helper.to_string(), amount: cur.allowance, expires: None }, &[]);
+                                }
+                                if want > 0 {
+                                    iw.w.increase_allowance(&who, &t, &helper, want);
+                                }
+                                rec.class("helper_deposit_with_cw20_asset");
+                            }
                         }
                     }
                     funds.sort_by(|a, b| a.denom.cmp(&b.denom));
